@@ -235,7 +235,7 @@ func (c *Ctx) sortContract(fn *ssa.Function, ia *ssa.IndexAddr) bool {
 	if _, ok := ia.Index.(*ssa.Parameter); !ok {
 		return false
 	}
-	base, fld, ok := fieldRead(ia.X)
+	base, owner, fld, ok := fieldReadThroughEmbedded(ia.X)
 	if !ok || len(fn.Params) == 0 || base != fn.Params[0] {
 		return false
 	}
@@ -258,8 +258,8 @@ func (c *Ctx) sortContract(fn *ssa.Function, ia *ssa.IndexAddr) bool {
 				if bi, ok := call.Call.Value.(*ssa.Builtin); !ok || bi.Name() != "len" {
 					return false
 				}
-				b2, f2, ok := fieldRead(call.Call.Args[0])
-				if !ok || b2 != lf.Params[0] || f2 != fld {
+				b2, o2, f2, ok := fieldReadThroughEmbedded(call.Call.Args[0])
+				if !ok || b2 != lf.Params[0] || f2 != fld || !types.Identical(o2, owner) {
 					return false
 				}
 			}
@@ -879,4 +879,26 @@ func ruleStepOverflow(c *Ctx) *RuleResult {
 		}
 	}
 	return r
+}
+
+// fieldReadThroughEmbedded: v reads field f of a struct reached from base
+// through embedded fields only; returns the base, the struct type that
+// declares f, and f's index there.
+func fieldReadThroughEmbedded(v ssa.Value) (ssa.Value, types.Type, int, bool) {
+	base, fld, ok := fieldRead(v)
+	if !ok {
+		return nil, nil, 0, false
+	}
+	owner := base.Type()
+	if pt, isPtr := owner.Underlying().(*types.Pointer); isPtr {
+		owner = pt.Elem()
+	}
+	for i := 0; i < 4; i++ {
+		fa, isFA := base.(*ssa.FieldAddr)
+		if !isFA || !isEmbeddedField(fa) {
+			break
+		}
+		base = fa.X
+	}
+	return base, owner, fld, true
 }
